@@ -16,6 +16,9 @@ import time
 
 ROOT = os.path.dirname(os.path.dirname(os.path.abspath(__file__)))
 sys.path.insert(0, ROOT)
+if os.environ.get("PYCV_REPO"):
+    # self-test only: verify another checkout of gearpy (a scratch worktree with a seeded change) instead of /repo
+    sys.path.insert(0, os.environ["PYCV_REPO"])
 
 from pycv import run as R            # noqa: E402
 from pycv import explore             # noqa: E402
@@ -178,7 +181,7 @@ def check(prop, tier, procs=None, only=None):
             engine_errors.append((e["id"], e.get("note", "")))
 
     # replay refutations on the real code (this process never patches gearpy)
-    rep_dir = os.path.join(ROOT, "replays", prop)
+    rep_dir = os.path.join(os.environ.get("PYCV_EVIDENCE_DIR") or os.path.join(ROOT, "replays"), prop)
     os.makedirs(rep_dir, exist_ok=True)
     lines = []
     seen_groups = collections.Counter()
@@ -290,8 +293,9 @@ def check(prop, tier, procs=None, only=None):
         wall_s=round(time.time() - t0, 2),
         violations=len(violations),
     )
-    os.makedirs(os.path.join(ROOT, "evidence"), exist_ok=True)
-    evp = os.path.join(ROOT, "evidence", f"{prop}.json")
+    evdir = os.environ.get("PYCV_EVIDENCE_DIR") or os.path.join(ROOT, "evidence")     # self-test writes elsewhere
+    os.makedirs(evdir, exist_ok=True)
+    evp = os.path.join(evdir, f"{prop}.json")
     with open(evp, "w") as f:
         json.dump(ev, f, indent=1, default=str)
     try:
